@@ -16,6 +16,7 @@ Not decided: floating-point neighbours of the bounds (the comparison is done by
 CPython; the rule fixes operator, bound and operand order).
 """
 import ast
+import re
 import math
 
 from mmsa import au, cfg as cfgmod, dataflow, pathcond
@@ -189,10 +190,28 @@ def r1_table(repo, rep, cls):
   if iso is not None:
     rep.fn(iso)
     txt = norm(iso.node)
-    hints = {h for h in ('OptionalRange', 'OptionalFloat', 'OptionalInt') if h in txt}
+    # module-level and class-level tables the function reads (a set of hints kept as a constant)
+    tables_, frontier_ = [], {x_.id for x_ in ast.walk(iso.node) if isinstance(x_, ast.Name)} | {x_.attr for x_ in ast.walk(iso.node) if isinstance(x_, ast.Attribute)}
+    for _round in range(3):
+      nxt_ = set()
+      for nm_ in sorted(frontier_):
+        v_ = iso.module.assigns.get(nm_) if nm_ in iso.module.assigns else cls.attrs.get(nm_)
+        if v_ is not None and nm_ not in ('OptionalRange', 'OptionalFloat', 'OptionalInt'):
+          tables_.append(norm(v_))
+          nxt_ |= {x_.id for x_ in ast.walk(v_) if isinstance(x_, ast.Name)}
+      frontier_ = nxt_
+    txt_all = txt + ' ' + ' '.join(tables_)
+    hints = {h for h in ('OptionalRange', 'OptionalFloat', 'OptionalInt') if h in txt_all}
     used = {norm(cls.annotations[n]) for n in fields if DOC.get(n, (0,) * 8)[7] and n in cls.annotations}
-    rep.check(used <= hints, 'R1/table', '_is_optional recognises every optional hint in use', iso.qualname, txt[-80:],
-              '_is_optional does not recognise the hints %s: None is rejected for documented-optional fields' % sorted(used - hints), iso.loc())
+    import builtins as _b2
+    opaque_ = sorted({x_.id for x_ in ast.walk(iso.node) if isinstance(x_, ast.Name) and isinstance(x_.ctx, ast.Load) and x_.id not in iso.params
+                      and not hasattr(_b2, x_.id) and x_.id not in ('typing', 'OptionalRange', 'OptionalFloat', 'OptionalInt', 'Optional', 'Union')
+                      and x_.id not in iso.module.assigns
+                      and not any(isinstance(y_, ast.Name) and y_.id == x_.id and isinstance(y_.ctx, ast.Store) for y_ in ast.walk(iso.node))}
+                     | {norm(c_.func) for c_ in ast.walk(iso.node) if isinstance(c_, ast.Call) and norm(c_.func) not in ('typing.get_type_hints', 'get_type_hints', 'isinstance', 'type')})
+    rep.check3(True if used <= hints else (None if opaque_ else False), 'R1/table', '_is_optional recognises every optional hint in use', iso.qualname, txt[-80:],
+               '_is_optional does not recognise the hints %s: None is rejected for documented-optional fields' % sorted(used - hints), iso.loc(),
+               why_open='the hints %s are not named in _is_optional or the tables it reads, but it consults %s, which is not followed' % (sorted(used - hints), ', '.join(opaque_)[:60]))
     mod = cls.module
     for hname in hints:
       v = mod.assigns.get(hname)
@@ -292,9 +311,18 @@ def r2_helpers(repo, rep, cls, sites):
                 for gen_ in c_.generators for y_ in ast.walk(gen_.target) if isinstance(y_, ast.Name)}
       open_names = [n_ for n_ in open_names if n_ not in bound_]
 
+      # a loop on the path whose body can change the verdict (assigns a flag, breaks, raises): the path shows at most one
+      # pass (or none), so it does not witness what the remaining elements do
+      loop_caveat = []
+      for n_, _l in p:
+        if n_.kind in ('for', 'while'):
+          if any(isinstance(m_, (ast.Assign, ast.AugAssign, ast.Break, ast.Raise)) for b_ in getattr(n_.ast, 'body', []) for m_ in ast.walk(b_)):
+            loop_caveat.append('the loop at line %s examines one element per pass; the path follows at most one pass' % getattr(n_.ast, 'lineno', '?'))
+
       def chk(cond, *a_, **k_):
-        return rep.check3(True if cond else (None if open_names else False), *a_,
-                          why_open='the accepting path reads unresolved locals (%s): %s' % (', '.join(open_names[:3]), txt[:120]), **k_)
+        return rep.check3(True if cond else (None if (open_names or loop_caveat) else False), *a_,
+                          why_open=('the accepting path reads unresolved locals (%s): %s' % (', '.join(open_names[:3]), txt[:120])) if open_names
+                          else '%s: %s' % (loop_caveat[0] if loop_caveat else '', txt[:100]), **k_)
       # optional-None path: asserts value is None and _is_optional
       def is_none_lit(e, t):
         s = norm(e)
@@ -367,6 +395,47 @@ def r2_helpers(repo, rep, cls, sites):
         if t and s.startswith('isinstance(') and s.endswith(', int)') and 'bound' not in s and s != 'isinstance(%s, int)' % bound_for_int:
           return True    # the value is an int
         return False
+      if hname == '_test_range':
+        # both ends of the range, each by a literal of its own: `int(c) != c` false, `c.is_integer()` / `isinstance(c, int)` true
+        comps_ = []
+        for n_ in g.nodes:
+          if n_.kind == 'stmt' and isinstance(n_.ast, ast.Assign) and isinstance(n_.ast.targets[0], (ast.Tuple, ast.List)) and len(n_.ast.targets[0].elts) == 2 \
+              and all(isinstance(t_, ast.Name) for t_ in n_.ast.targets[0].elts) and norm(rd.expand(n_, n_.ast.value, keep=tuple(params))[0]) in ('getattr(self, attr)', 'value'):
+            comps_ = [t_.id for t_ in n_.ast.targets[0].elts]
+        def comp_status(conj, c_):
+          cre = re.escape(c_)
+          unknown_ = False
+          for e_, t_ in conj:
+            s_ = norm(e_)
+            if not re.search(r'(?<![\w.])%s(?!\w)' % cre, s_):
+              continue
+            if (not t_ and re.fullmatch(r'int\(%s\) != %s' % (cre, cre), s_)) or (t_ and re.fullmatch(r'int\(%s\) == %s' % (cre, cre), s_)) \
+                or (t_ and s_ in ('%s.is_integer()' % c_, 'isinstance(%s, int)' % c_, 'float(%s).is_integer()' % c_)):
+              return 'int'
+            if 'is_integer' in s_ or 'int(' in s_ or ', int)' in s_:
+              unknown_ = True
+          return 'unknown' if unknown_ else 'none'
+        if len(comps_) == 2 and pf.dnf:
+          worst_ = 'int'
+          for conj in pf.dnf:
+            if any((not t_) and norm(e_) == 'isinstance(%s, int)' % bound_for_int for e_, t_ in conj):
+              continue        # the bound is not an int: nothing to enforce
+            for c_ in comps_:
+              st_ = comp_status(conj, c_)
+              if st_ == 'none':
+                worst_ = 'none:' + c_
+                break
+              if st_ == 'unknown' and worst_ == 'int':
+                worst_ = 'unknown:' + c_
+            if worst_.startswith('none'):
+              break
+          if worst_ != 'int':
+            c_ = worst_.split(':')[1]
+            rep.check3(None if (worst_.startswith('unknown') or open_names or loop_caveat) else False, 'R2/helper', '_test_range: integrality of %s enforced when the bound is an int' % c_, f.qualname,
+                       'accepting path without integrality test of %s: %s' % (c_, txt[:140]),
+                       '_test_range accepts a range for an int bound on a path that never tested that its end %s is integer-valued: non-integer sizes pass' % c_, f.loc(),
+                       why_open='the end %s of the range is tested in a form that is not understood on the accepting path %s' % (c_, txt[:100]))
+            continue
       chk(pf.every_case_has(int_lit), 'R2/helper', '%s: integrality enforced when the bound is an int' % hname, f.qualname,
                 'accepting path without integrality test: ' + txt[:160],
                 '%s accepts a value for an int bound without an integrality test: non-integer values pass for integer-valued fields' % hname, f.loc())
@@ -390,6 +459,12 @@ def r3_exceptions(repo, rep, cls, sites):
           if rn is not None:
             exc = rctx.rd.expand(rn, exc)[0]
         exn = norm(exc.func) if isinstance(exc, ast.Call) else (norm(exc) if exc is not None else 're-raise')
+        if exn != 'ValueError':
+          exn2 = au.raised_class(repo, f, sub)
+          if exn2 is None:
+            rep.undecided('R3/only-ValueError', '%s raises ValueError' % f.name, 'the raised object `%s` is not followed to the construction of an exception' % norm(sub.exc)[:60], f.loc(sub))
+            continue
+          exn = exn2
         rep.check(exn == 'ValueError', 'R3/only-ValueError', '%s raises ValueError' % f.name, f.qualname, norm(sub)[:100],
                   '%s rejects with %s instead of ValueError' % (f.name, exn), f.loc(sub))
   rep.floor('explicit raise sites in the validators', n_raise, 9)
@@ -470,6 +545,11 @@ def r3_exceptions(repo, rep, cls, sites):
                 finite_int = False
             if finite_int:
               rep.ok('R3/only-ValueError', '%s: int(%s) is applied to an int or an integer-valued (hence finite) float' % (hname, target), loc=f.loc(call))
+              continue
+            dl_ = au.delegations(repo, f)
+            if not (not bad_sites and guarded) and dl_:
+              rep.undecided('R3/only-ValueError', '%s: int(%s) only sees finitely bounded values' % (hname, target),
+                            'the comparisons guarding the conversion are not in the recognised form, and %s hands the checks to %s, which is not followed' % (hname, dl_[0][1]), f.loc(call))
               continue
             rep.check(not bad_sites and guarded, 'R3/only-ValueError', '%s: int(%s) only sees finitely bounded values' % (hname, target),
                       f.qualname, norm(call),
